@@ -1129,10 +1129,15 @@ class QuicConnection:
             if network_path not in self._network_paths:
                 self._network_paths.append(network_path)
             idx = self._network_paths.index(network_path)
-            if idx and not is_probing and packet_number > space.largest_received_packet:
-                self._logger.debug("Network path %s promoted", network_path.addr)
-                self._network_paths.pop(idx)
-                self._network_paths.insert(0, network_path)
+            # the peer's address is the source of the highest-numbered packet
+            # which is not a probing packet (RFC 9000 section 9.3)
+            if not is_probing:
+                if idx and packet_number > space.largest_received_non_probing_packet:
+                    self._logger.debug("Network path %s promoted", network_path.addr)
+                    self._network_paths.pop(idx)
+                    self._network_paths.insert(0, network_path)
+                if packet_number > space.largest_received_non_probing_packet:
+                    space.largest_received_non_probing_packet = packet_number
 
             # record packet as received
             if not space.discarded:
